@@ -128,6 +128,7 @@ func loadProgram(repo string, goarch string) (*Program, error) {
 		}
 	}
 	computeCursorParams(p)
+	computePassThroughWriters(p)
 	return p, nil
 }
 
